@@ -323,6 +323,7 @@ class DIP:
                         if target.nodes[n].constant:
                             raise Exception(f"Node '{target.nodes[n].name}' is constant and cannot be modified:",node.code)
                         target.nodes[n].modify_value(node, target)
+                        target.nodes.current = n
                         break
                 # If node wasn't defined, create a new node
                 else:
